@@ -45,6 +45,7 @@ OF OR IN CONNECTION WITH THE SOFTWARE OR THE USE OR OTHER DEALINGS IN THE SOFTWA
 **************************************************************************************************/
 
 #include "CoreSMTSolver.h"
+#include <common/VerifTrace.h>
 
 #include <api/GlobalStop.h>
 #include <common/InternalException.h>
@@ -659,6 +660,7 @@ void CoreSMTSolver::analyze(CRef confl, vec<Lit>& out_learnt, int& out_btlevel)
             const double start = cpuTime( );
 #endif
             theory_handler.getReason(p, r);
+            VERIF_CLAUSE("th", "reason", r, r.size());
             assert(r.size() > 0);
 #ifdef STATISTICS
             tsolvers_time += cpuTime( ) - start;
@@ -840,6 +842,7 @@ bool CoreSMTSolver::litRedundant(Lit p, uint32_t abstract_levels)
             cancelUntilVarTempInit( v );
             // Retrieving the reason
             theory_handler.getReason(p, r);
+            VERIF_CLAUSE("th", "reason", r, r.size());
             // Restoring trail
             cancelUntilVarTempDone( );
             CRef ct = CRef_Undef;
@@ -990,6 +993,7 @@ void CoreSMTSolver::analyzeFinal(Lit p, vec<Lit>& out_conflict)
                     cancelUntilVarTempInit(x);
                     vec<Lit> r;
                     theory_handler.getReason(trail[i], r);
+                    VERIF_CLAUSE("th", "reason", r, r.size());
                     assert(r.size() > 0);
                     assert(r[0] == trail[i]);
                     for (int j = 1; j < r.size(); j++) {
@@ -1450,6 +1454,7 @@ lbool CoreSMTSolver::search(int nof_conflicts)
             }
             learnt_clause.clear();
             analyze(confl, learnt_clause, backtrack_level);
+            VERIF_CLAUSE("l", "", learnt_clause, learnt_clause.size());
 
             cancelUntil(backtrack_level);
 
